@@ -14,7 +14,9 @@ RULE = (
     "explains; out-of-range values must end in a wider encoding or an exception, never a wrapped / clamped field.  (B) "
     "PaintLinear/RadialGradient.apply_transform: gradient parameter t preserved at probe points, geometry that leaves int16 / "
     "uint16 must raise.  (C) _decompose_uniform_transform: uniform part is uniform, parts recompose.  (D) Paint.from_ot(...)."
-    "gettransform() for every non-variable transform format vs the spec matrix.  Generators are boundary-targeted (near-"
+    "gettransform() for every non-variable transform format vs the spec matrix.  (E) svg._apply_paint on a gradient under 1-3 "
+    "nested transform paints plus an incoming (reuse) transform: the <linearGradient>/<radialGradient> it writes, read by the "
+    "independent SVG evaluator, gives the paint tree's colour parameter at corresponding viewBox points.  Generators are boundary-targeted (near-"
     "integer translations, scales at +-2 and 32767/16384, (1==sx)!=(0==dx), centres at int16 limits, shear, near-singular, "
     "beyond Fixed).  Non-trivial = affine that is not a plain in-range PaintTransform case; distinct = the affine itself."
 )
@@ -398,6 +400,94 @@ def run_case(case):
         if np.abs((mine - theirs) @ pts).max() > 1e-6 * (1 + np.abs(mine @ pts).max()):
             res["violations"].append({"what": "gettransform() of a paint read from a font differs from the matrix the spec gives", "paint": {kk: (vv if not isinstance(vv, dict) else "...") for kk, vv in spec.items() if kk != "Paint"}, "nanoemoji": [float(x) for x in pm.Paint.from_ot(ot).gettransform()], "spec": [mine[0, 0], mine[1, 0], mine[0, 1], mine[1, 1], mine[0, 2], mine[1, 2]]})
 
+    # ---------------- (E) the OT-SVG writer: a gradient under nested transform paints (+ an incoming transform, as a
+    # reused shape has) must give the same colour parameter at corresponding viewBox points
+    try:
+        from lxml import etree
+        from nanoemoji import svg as svgmod
+        from nanoemoji.glyph_reuse import GlyphReuseCache
+        from vf.oracle import svgeval
+
+        for n in range(PER // 8):
+            def wellcond():
+                for _ in range(20):
+                    tg, tt = gen_affine(r)
+                    if tg in ("beyond-fixed", "near-singular"):
+                        continue
+                    m = aff(tt)[:2, :2]
+                    sv = np.linalg.svd(m, compute_uv=False)
+                    if sv[1] > 0.2 and sv[0] < 5 and max(abs(tt[4]), abs(tt[5])) < 3000:
+                        return tt
+                return (1, 0, 0, 1, r.randint(-300, 300), r.randint(-300, 300))
+
+            depth = r.choice([1, 2, 2, 3])
+            chainT = [wellcond() for _ in range(depth)]
+            T0 = wellcond() if r.random() < 0.6 else (1, 0, 0, 1, 0, 0)
+            cA, cB = Color(255, 0, 0, 1.0), Color(0, 0, 255, 1.0)
+            stops = (pm.ColorStop(0.0, cA), pm.ColorStop(1.0, cB))
+            if r.random() < 0.5:
+                g = pm.PaintLinearGradient(stops=stops, p0=Point(r.uniform(0, 300), r.uniform(0, 300)), p1=Point(r.uniform(400, 900), r.uniform(400, 900)), p2=Point(r.uniform(-300, -100), r.uniform(500, 900)))
+                gs_probes = np.array([[100, 100], [500, 300], [300, 700], [800, 800], [50, 600]], float)
+                t_ref = linear_t(tuple(g.p0), tuple(g.p1), tuple(g.p2), gs_probes)
+            else:
+                rr = r.uniform(100, 500)
+                c1 = Point(r.uniform(200, 800), r.uniform(200, 800))
+                g = pm.PaintRadialGradient(stops=stops, c0=c1, c1=c1, r0=0, r1=rr)
+                gs_probes = np.array([[c1.x + 0.3 * rr, c1.y], [c1.x, c1.y - 0.6 * rr], [c1.x + 0.5 * rr, c1.y + 0.5 * rr], [c1.x - 0.2 * rr, c1.y + 0.1 * rr]], float)
+                t_ref = radial_t(tuple(g.c0), g.r0, tuple(g.c1), g.r1, gs_probes)
+            tree = g
+            for tt in reversed(chainT):
+                tree = pm.PaintTransform(transform=tuple(tt), paint=tree)
+            k_ = r.choice([0.1, 0.125, 128 / 1024, 0.5, 1.0])
+            U = Affine2D(k_, 0, 0, -k_, r.choice([0, 0, 12.5]), r.choice([95.0, 100.0, 120.0]))
+            Mtot = aff(tuple(U)) @ aff(T0)
+            for tt in chainT:
+                Mtot = Mtot @ aff(tt)
+            svt = np.linalg.svd(Mtot[:2, :2], compute_uv=False)
+            if svt[1] <= 0 or svt[0] / svt[1] > 12:
+                bump("E.skipped_ill_conditioned_composition")
+                continue
+            vb_probes = (Mtot @ np.c_[gs_probes, np.ones(len(gs_probes))].T).T[:, :2]
+            defs = etree.Element("defs")
+            el = etree.Element("path")
+            cache = svgmod.ReuseCache(0.1, GlyphReuseCache(0.1)) if r.random() < 0.7 else None
+            try:
+                svgmod._apply_paint(defs, el, tree, U, cache, Affine2D(*T0))
+            except Exception as e:
+                bump("E.apply_paint_raised")
+                continue
+            ns = 'xmlns="http://www.w3.org/2000/svg" xmlns:xlink="http://www.w3.org/1999/xlink"'
+            dtxt = etree.tostring(defs).decode()
+            doc = f'<svg {ns} viewBox="0 0 100 100">{dtxt}<path d="M0,0 L1,0 L1,1 Z" fill="{el.get("fill")}"/></svg>'
+            try:
+                lay = svgeval.display_list(doc, np.eye(3), svg_quantum=1e-3)
+                pnt = lay[0].paint
+                if "G" not in pnt.quanta:  # a residual that rounds to the identity is omitted: it was still rounded
+                    pnt.G = np.eye(3)
+                    pnt.Mpre = pnt.M.copy()
+                    pnt.quanta["G"] = 1e-3
+                t_got = pnt.tvals(vb_probes)
+            except Exception as e:
+                res["violations"].append({"what": f"gradient written by the OT-SVG writer cannot be evaluated: {type(e).__name__}: {e}", "defs": dtxt[:600]})
+                continue
+            bump("E.svg_gradients_checked")
+            bump("E.depth.%d" % depth)
+            ok = ~(np.isnan(t_ref) | np.isnan(t_got))
+            if ok.any():
+                # 3-decimal rounding of the written geometry and matrix, seen from the probes
+                # the writer rounds geometry and matrix entries to 3 decimals: allow what half a unit in the 3rd decimal
+                # of every written field does to t at the probes (x2), nothing more
+                fd = pnt.field_dt(vb_probes)
+                devs = np.abs(t_ref - t_got)
+                excess = np.where(ok, devs - (2e-3 + 2.0 * fd), -1)
+                dev = float(devs[ok].max())
+                allow = float((2e-3 + 2.0 * fd)[int(np.argmax(excess))])
+                res["maxes"]["E.max_dt_over_allowance"] = max(res["maxes"].get("E.max_dt_over_allowance", 0), float((devs[ok] / (2e-3 + 2.0 * fd[ok])).max()))
+                if (excess > 0).any():
+                    res["violations"].append({"what": f"OT-SVG gradient under nested transforms: colour parameter differs from the paint tree's (dt {dev:.3g}, allowed {allow:.3g})", "incoming_transform": list(T0), "nested": [list(x) for x in chainT], "upem_to_vbox": list(tuple(U)), "defs": dtxt[:700], "t_ref": [float(x) for x in t_ref], "t_got": [float(x) for x in t_got]})
+    except ImportError as e:
+        bump("E.unavailable")
+
     for v in contracts.violations():
         res["violations"].append(v)
     c.update({k: v for k, v in contracts.counters().items() if k.startswith(("H1", "H7"))})
@@ -410,7 +500,7 @@ def run_case(case):
 def finish(agg):
     c = agg["counters"]
     inc = []
-    need = ["A.emitted.PaintTranslate", "A.emitted.PaintScale", "A.emitted.PaintScaleUniform", "A.emitted.PaintScaleAroundCenter", "A.emitted.PaintScaleUniformAroundCenter", "A.emitted.PaintTransform", "A.compile_refused", "B.overflow_raised", "B.t_checked", "C.decompositions", "D.from_ot_checked", "H1.transformed", "H7.PaintRadialGradient", "repo_tests.H1.transformed"]
+    need = ["A.emitted.PaintTranslate", "A.emitted.PaintScale", "A.emitted.PaintScaleUniform", "A.emitted.PaintScaleAroundCenter", "A.emitted.PaintScaleUniformAroundCenter", "A.emitted.PaintTransform", "A.compile_refused", "B.overflow_raised", "B.t_checked", "C.decompositions", "D.from_ot_checked", "E.svg_gradients_checked", "E.depth.2", "H1.transformed", "H7.PaintRadialGradient", "repo_tests.H1.transformed"]
     for k in need:
         if c.get(k, 0) == 0:
             inc.append(f"deciding monitor/branch never reached: {k}")
